@@ -1357,6 +1357,14 @@ func c19Forwarding(s *source, e *emitter) {
 		}
 		e.stringList("scriptRunCtxBody", "statements of Redis.ScriptRunCtx with the script.Run call abbreviated `<run>`", body)
 	}
+	// init(): whatever it does must not reach any state of the lock (today: one expression statement whose value is dropped)
+	if fd := s.findFunc(f, "init"); fd == nil {
+		e.stringList("initBody", "redislock.go has no init()", []string{})
+	} else {
+		var body []string
+		flatStmts(s, fd.Body.List, &body)
+		e.stringList("initBody", "statements of redislock.go's `init`", body)
+	}
 	// NewRedisLock: the literal's fields as functions of the parameters
 	{
 		head := "def newLockFields {α : Type} (store key : α) (randn : Int → α) : List (String × α)"
